@@ -244,6 +244,38 @@ def analyse(mod, run, label, names=None):
                       Finding("B5-operand-walked-and-probed-is-the-same", fname, "operands", "order-%s" % bad,
                               "%s: when the two operands' cardinalities compare '%s' the operand that is walked and the operand that is probed at %s are the same one: the result is that operand (or nothing), not the set operation" % (
                                   fname, {"lt": "first < second", "eq": "equal", "gt": "first > second"}.get(bad, bad), loc(pr)), loc=loc(pr)))
+    # ---- B6: a loop that asks the bit array about every value asks about all 65536 of them ----
+    # (bitmapSet_ can set any 16-bit value; a conversion that scans [0, K) with K < 65536, or with a 16-bit counter that can never
+    #  reach its bound, silently drops the top members)
+    nb6 = 0
+    for fn in sorted(mod.defined(), key=lambda f: f.name):
+        probes6 = [c for c in fn.calls("bitmapContains_")]
+        if not probes6: continue
+        loops6 = fn.loops()
+        for pr6 in probes6:
+            hs = [h for h, body in loops6.items() if pr6.block.id in body]
+            if not hs: continue
+            h6 = min(hs, key=lambda h: len(loops6[h])); body6 = loops6[h6]
+            arg6 = pr6.ops[1]
+            for _ in range(3):
+                if arg6["k"] == "inst" and fn.imap[arg6["v"]].op in ("trunc", "zext"): arg6 = fn.imap[arg6["v"]].ops[0]
+            if arg6["k"] != "inst" or fn.imap[arg6["v"]].op != "phi" or fn.imap[arg6["v"]].block.id != h6: continue     # not a counter of this loop (an iterator position, a caller's value)
+            ph6 = fn.imap[arg6["v"]]
+            ins6 = [c_ for c_ in ph6["incoming"] if c_["b"] not in body6]; back6 = [c_ for c_ in ph6["incoming"] if c_["b"] in body6]
+            t6 = fn.bmap[h6].term
+            if len(ins6) != 1 or len(back6) != 1 or t6.op != "br" or len(t6.ops) != 3 or t6.ops[0]["k"] != "inst": continue
+            ci6 = fn.imap[t6.ops[0]["v"]]
+            if ci6.op != "icmp" or ci6.ops[1]["k"] != "int": continue
+            nb6 += 1
+            K = int(ci6.ops[1]["v"]); bits6 = int(ph6["t"][1:]); bi6 = fn.imap[back6[0]["v"]["v"]] if back6[0]["v"]["k"] == "inst" else None
+            # from 0, or from a position remembered elsewhere (an iterator resuming where it stopped); a constant start other than 0 skips values
+            unit = bi6 is not None and bi6.op == "add" and bi6.ops[1]["k"] == "int" and int(bi6.ops[1]["v"]) == 1 and (ins6[0]["v"]["k"] != "int" or int(ins6[0]["v"]["v"]) == 0)
+            last = K - 1 if ci6["pred"] in ("ult", "slt", "ne") else (K if ci6["pred"] in ("ule", "sle") else None)
+            ok6 = unit and last == 65535 and (bits6 > 16 or ci6["pred"] in ("ule", "sle") and False)
+            run.check(ok6, "B6-bit-array-scanned-in-full", {"fn": fn.name, "at": loc(ci6), "last_value_asked": last, "counter_bits": bits6},
+                      Finding("B6-bit-array-scan-incomplete", fn.name, "bitmap-scan", "loop",
+                              "%s asks the bit array about the values 0..%s with a %d-bit counter (at %s): members up to 65535 exist, the top ones are never seen and are dropped by this conversion" % (
+                                  fn.name, last, bits6, loc(ci6)), loc=loc(ci6)))
     # ---- B3 ----
     nfree = 0
     for fn in sorted(mod.defined(), key=lambda f: f.name):
